@@ -65,6 +65,10 @@ def gen_problem(rng, families=("lin", "quad", "trig", "pole", "incons", "rankdef
         tars = [float(v) for v in f(np.array([rng.choice([-1, 1]) * rng.uniform(2.0, 6.0) for _ in range(n)]))]
     else:
         lim = [(-rng.uniform(1, 4), rng.uniform(1, 4)) if rng.random() < 0.6 else None for _ in range(n)]
+    # special values: a bound that is exactly zero (on the side that keeps the start point inside)
+    for i in range(n):
+        if lim[i] is not None and rng.random() < 0.3 and x0[i] != 0:
+            lim[i] = (0.0, lim[i][1]) if x0[i] > 0 else (lim[i][0], rng.choice([0.0, -0.0, 0]))
     spec.update({
         "tars": tars, "x0": x0, "limits": lim,
         "max_step": [rng.choice([None, None, 0.1, 0.5, 2.0]) for _ in range(n)],
@@ -146,7 +150,8 @@ class Setup:
         self.cont.vary = {v.name: v for v in self.vary}
         self.targets = [self.act.target(i, float(v), tol=spec["tol"][i], weight=wt[i], tag="t%d" % i)
                         for i, v in enumerate(spec["tars"])]
-        self.opt = xd.Optimize(self.vary, self.targets, n_steps_max=spec["n_steps_max"], show_call_counter=False)
+        self.opt = xd.Optimize(self.vary, self.targets, n_steps_max=spec["n_steps_max"], show_call_counter=False,
+                               check_limits=spec.get("check_limits", True))
         self.cont.log.clear()
 
     def knobs(self):
